@@ -219,6 +219,10 @@ def run(chk, repo, tier):
         chk.ob('C14-g', 'D-flow', fsv.key, 'Vega zero point looked up in the requested wavelength unit', okz, detz, fsv.loc())
     from .c15 import integrate_selection_rule
     integrate_selection_rule(chk, repo, 'C14-c')
+    # the bins of a density (normalised to the band integral) are what a unit change must preserve: the binning rules of C15
+    from . import c15 as _c15
+    from .common import Remap as _Remap
+    _c15.run(_Remap(chk, {'C15-e': 'C14-c'}), repo, tier)
     fto_ = repo.func('radiometry.Spectrum.to')
     early = []
     for loop in [n for n in ast.walk(fto_.node) if isinstance(n, ast.For)]:
